@@ -124,6 +124,9 @@ pub struct Eab {
 pub struct CaPlan {
 	pub seed: u64,
 	pub chain_len: usize,
+	/// when non-empty: chain length of the k-th order is chain_len_seq[k % len]
+	#[serde(default)]
+	pub chain_len_seq: Vec<usize>,
 	/// validity of issued certificates relative to the issuance instant (seconds)
 	pub not_before_s: i64,
 	pub not_after_s: i64,
@@ -149,6 +152,7 @@ impl Default for CaPlan {
 		CaPlan {
 			seed: 1,
 			chain_len: 2,
+			chain_len_seq: vec![],
 			not_before_s: -60,
 			not_after_s: 90 * 86400,
 			authz_shuffle: 0,
